@@ -402,7 +402,6 @@ fn worker(line: &str) -> String {
         return out1("INVALID");
     }
     let total: usize = progs.iter().sum();
-    let _ = p; // the constants are for the model; the judge is the implementation's own sequential run
     let seq: Vec<u64> = {
         use std::io::Read;
         let mut bytes = Vec::new();
@@ -477,9 +476,14 @@ fn worker(line: &str) -> String {
         }
         _ => (false, if sh_ok { "ok".to_string() } else { stream_fail("sh") }),
     };
+    // no constants in the case line (the generator's arithmetic was not recognised): the model cannot predict the values,
+    // only how many draws every thread made
+    let blind = p.a == 0 && p.c == 0;
     let raw = if raw_tl {
-        let v: Vec<String> = outs.iter().map(|o| summ(&o.prios)).collect();
+        let v: Vec<String> = outs.iter().map(|o| if blind { o.prios.len().to_string() } else { summ(&o.prios) }).collect();
         format!("T {}", v.join(";"))
+    } else if blind {
+        format!("U {}", union.len())
     } else {
         format!("U {}", summ(&union))
     };
